@@ -26,6 +26,7 @@ func newFineCase(seed uint64, memq int64) *caseRun {
 	opts := nsqdlib.NewOpts(dir)
 	opts.MemQueueSize = memq
 	opts.MaxBytesPerFile = 4096
+	opts.MaxMsgSize = maxMsgSize
 	opts.QueueScanInterval = time.Hour
 	opts.QueueScanRefreshInterval = time.Hour
 	opts.SyncEvery = 1
@@ -345,7 +346,59 @@ func fineExitWhileRequeueing(seed uint64) []lib.Case {
 	return []lib.Case{cr.finish("exit-vs-req#"+strconv.FormatUint(seed, 10), seed, nil, nil)}
 }
 
+// Exit racing a timeout / deferred scan: the scan worker is parked between popping the
+// message from the in-flight (deferred) set and putting it back on the queue, then Exit
+// starts.  The scan holds the channel's exit lock, so Exit has to wait for the re-queue
+// and the flush then writes the message; without that lock the message is in no set when
+// the backlog is written and is gone after the restart.
+func fineExitWhileScanning(seed uint64, inflight bool) []lib.Case {
+	cr := newFineCase(seed, 3)
+	name := "exit-vs-timeout-scan"
+	point := "scan-inflight:after-pop"
+	if !inflight {
+		name, point = "exit-vs-deferred-scan", "scan-deferred:after-pop"
+	}
+	cr.opCreateTopic(1)
+	cr.opCreateChan(1, 1)
+	var tg int
+	if inflight {
+		k1 := cr.opConnect(false, false)
+		cr.opSub(k1, 1, 1)
+		cr.opRdy(k1, 1)
+		cr.opPub(1, 1, false, false)
+		var okh bool
+		tg, _, okh = cr.someHeld(k1)
+		if !okh {
+			return []lib.Case{cr.finish(name+"-setup-failed#"+strconv.FormatUint(seed, 10), seed, nil, nil)}
+		}
+		cr.opRdy(k1, 0)
+		delete(k1.held, tg)
+	} else {
+		cr.opPub(1, 1, true, false)
+		tg = cr.nextTag
+	}
+	cr.opPauseChan(1, 1, true)
+	reached, release := nsqd.VerifArmPark(point, 1)
+	at := time.Now().Add(2 * time.Hour).UnixNano()
+	scanDone := make(chan struct{})
+	go func() { cr.d.VerifScan(tname(1), cname(1), at, inflight); close(scanDone) }()
+	ok := waitReached(reached, 3*time.Second)
+	cr.tag(fmt.Sprintf("scan-parked=%v", ok))
+	opn := "OScanInFlight"
+	if !inflight {
+		opn = "OScanDeferred"
+	}
+	cr.ev(fmt.Sprintf("EOp (%s 1 1 %s) ROk", opn, z(at)))
+	cr.ev(fmt.Sprintf("EExpired 1 1 %s [%d]%%N", b(inflight), tg))
+	cr.nontriv = true
+	cr.opRestartWith(release)
+	<-scanDone
+	return []lib.Case{cr.finish(name+"#"+strconv.FormatUint(seed, 10), seed, nil, nil)}
+}
+
 var fineScenarios = map[string]func(uint64) []lib.Case{
+	"exit-vs-timeout-scan":  func(seed uint64) []lib.Case { return fineExitWhileScanning(seed, true) },
+	"exit-vs-deferred-scan": func(seed uint64) []lib.Case { return fineExitWhileScanning(seed, false) },
 	"exit-vs-deliver":       fineExitWhileDelivering,
 	"exit-vs-req":           fineExitWhileRequeueing,
 	"pump-vs-sub":           fineSubWhilePumpBusy,
@@ -361,5 +414,5 @@ var fineByProfile = map[string][]string{
 	"c03": {"fin-vs-empty", "deliver-vs-empty"},
 	"c13": {"fin-vs-empty", "deliver-vs-empty"},
 	"c02": {},
-	"c05": {"exit-vs-deliver", "exit-vs-req"},
+	"c05": {"exit-vs-deliver", "exit-vs-req", "exit-vs-timeout-scan", "exit-vs-deferred-scan"},
 }
